@@ -80,6 +80,10 @@ def _cmd(rng, nl, issued, cbs, profile, inside=False, depth=0):
     if op in ("invoke", "enum"):
         return "%s %d %d" % (op, l, rng.randint(0, 9))
     if op == "setcounter":
+        if rng.random() < 0.25:
+            # half way round the 2^32 circle from the first callbacks' generation numbers: a comparison of the two
+            # counters by signed distance (serial-number arithmetic) goes wrong exactly there
+            return "setcounter %d %d" % (l, 2147483648 + rng.randint(-8, 3))
         return "setcounter %d %d" % (l, rng.randint(0, 6))
     if op in ("copy", "move", "swap"):
         return "%s %d %d" % (op, l, rng.randrange(nl))
